@@ -3,12 +3,13 @@
 # (development aid for the seeded-change trials; registered checks always run against /repo itself)
 set -e
 PATCH="$1"; TAG="$2"; shift 2
+HERE="$(cd "$(dirname "$0")/.." && pwd)"
 W=/var/tmp/seedtry/$TAG
 rm -rf "$W"; mkdir -p "$W"
 rsync -a --exclude /target --exclude /.git /repo/ "$W/repo/"
 ( cd "$W/repo" && git init -q . && git apply --whitespace=nowarn "$PATCH" )
 for P in "$@"; do
   echo "=== $TAG $P"
-  VERIF_REPO="$W/repo" VERIF_SCRATCH="$W/scratch" VERIF_EVIDENCE_DIR="$W/evidence" VERIF_REPLAY_DIR="$W/replay" /verif/check "$P" 2>&1 | tail -6 || true
+  VERIF_REPO="$W/repo" VERIF_SCRATCH="$W/scratch" VERIF_EVIDENCE_DIR="$W/evidence" VERIF_REPLAY_DIR="$W/replay" "$HERE/check" "$P" 2>&1 | tail -6 || true
 done
 rm -rf "$W/repo" "$W/scratch"
